@@ -17,6 +17,10 @@ ThreadNames == {"T" \o ToString(i) : i \in 1..48}
 PipeNames == {"p" \o ToString(i) : i \in 1..24}
 MinSet(S) == CHOOSE m \in S : \A x \in S : m <= x
 
+\* index of the call line matching the ret line at index i (same thread, latest before i)
+CallLine(i) == CHOOSE j \in 1..(i-1) : /\ Log[j].k = "call" /\ Log[j].th = Log[i].th
+                                     /\ \A k \in (j+1)..(i-1) : ~(Log[k].k = "call" /\ Log[k].th = Log[i].th)
+
 \* Evaluated as a state constraint: record progress, stop TLC at acceptance.
 Progress(l) ==
   /\ IF l > TLCGet(1) THEN TLCSet(1, l) ELSE TRUE
